@@ -71,6 +71,10 @@ CHECKS = {
    technique="explicit-state BFS of a reference model + conformance replay of every explored transition against running trackers over all worker-count configurations and placements",
    text="A reference model (one tracker, 2-3 connections, 2-3 torrents; announce / scrape shapes / malformed / oversized / close) is explored breadth-first with deduplication; every transition of the explored graph (1.6k quick, more at depth 4) is replayed - BFS-tree path to its source, then the transition, in a fresh info-hash namespace - against aquatic_http::run in child processes for socket_workers x swarm_workers configurations (quick 4, thorough all 18 incl. keep-alive off), connections placed on chosen socket workers (hook H7) and torrents on chosen swarm workers; short paths under every placement; a max_scrape_torrents=2 family; every byte-offset split of one announce and one scrape into TCP segments. Each reply must be exactly one HTTP/1.1 200 with exact Content-Length, canonical bencode equal to the single-tracker model.",
    note="Executor scheduling inside the tracker is not controlled (requests of a path are serial; paths run concurrently in disjoint namespaces); malformed requests are judged by 120 ms of silence."),
+ "C17": dict(level="model_checking", engine="netmc", ref="§3 C17",
+   technique="explicit-state BFS over event sequences of a reference model + conformance replay of every explored transition against running trackers (worker-count configurations, placements), every connection fenced after every event",
+   text="Event sequences (announce with own / another connection's peer id, with offers, answers to received offers, scrapes merged over swarm workers, orderly and abrupt close) are enumerated breadth-first with deduplication on an abstract model state (depth 2-3 on the full alphabet, 4-5 on a signalling alphabet); each explored transition is replayed with its BFS-tree path in a fresh namespace against aquatic_ws::run for socket_workers x swarm_workers in {1,2,3}^2 (quick: the diagonal) with connections on chosen socket workers (hook H7) and torrents on chosen swarm workers; after every event every connection plus a monitor connection is fenced by a scrape covering all swarm workers and the messages each connection received must be exactly those a reference tracker with per-connection ownership allows (offer receivers are the implementation's choice, checked for legality and followed). 30 ownership paths run on fresh 2-worker trackers where two connections are each the first of their socket worker, so that per-worker connection ids coincide.",
+   note="Executor scheduling not controlled; few messages in flight per connection (the 16-slot local channel that drops on overflow is outside the bound); dedup ignores pending offers."),
 }
 
 NOT_YET = {}
